@@ -131,7 +131,7 @@ func main() {
 	}
 
 	run := vh.NewRun("C15", o)
-	run.Rule = "six streams: bytes (random bytes, token soup, mutated valid queries + random variable maps) 45%, grammar (valid GraphQL incl. unsupported constructs, AST mirrored into Coq) 25%, typed (selection trees that follow the test schema, colliding aliases, fragments, failing resolvers; executed) 15%, socket scripts 5%, http 10%, plus fixed fragment-bomb families and cancellation scripts; non-trivial = the input got past graphql-go's parser (bytes/grammar), or is a bomb/socket/http/cancel script; distinct by stream + input text"
+	run.Rule = "seven streams: envelope scripts (envelopes of every shape on one connection, each followed by an echo barrier, and HTTP bodies; reactions compared with the model) 5%, bytes (random bytes, token soup, mutated valid queries + random variable maps) 40%, grammar (valid GraphQL incl. unsupported constructs, AST mirrored into Coq) 25%, typed (selection trees that follow the test schema, colliding aliases, fragments, failing resolvers; executed) 15%, socket scripts 5%, http 10%, plus fixed fragment-bomb families and cancellation scripts; non-trivial = the input got past graphql-go's parser (bytes/grammar), or is a bomb/socket/envelope/http/cancel script; distinct by stream + input text"
 	workers := runtime.NumCPU() / 2
 	if workers > 8 {
 		workers = 8
